@@ -2,6 +2,7 @@ package main
 
 import (
 	"fmt"
+	"github.com/koykov/inspector/testobj"
 	"math"
 	"os"
 	"path/filepath"
@@ -255,6 +256,15 @@ func init() {
 			}
 			for _, cond := range conds {
 				run("node", "loop-step", "{% for i:=0; "+cond+"; "+hdr+" %}{% if i == 999 %}x{% endif %}{% endfor %}|", []string{"v"}, []c13Val{intV})
+			}
+		}
+		// the if-ok helper registered by the library itself (init.go), with every value as its argument — nil and typed
+		// nil pointers at both levels of the pointer-to-pointer it expects included — and its counter moved below zero
+		okVals := append([]c13Val{{"nilpp-finance", (**testobj.TestFinance)(nil)}, {"pp-nil-finance", new(*testobj.TestFinance)}, {"user-no-finance", &testobj.TestObject{}}}, vals...)
+		for i := range okVals {
+			for _, src := range []string{"{% if h, ok := __testUserNextHistory999(v) as TestHistory; ok %}a{% else %}b{% endif %}", "{% if h, ok := __testUserNextHistory999(v.Finance); ok %}{%= h.Cost %}{% else %}b{% endif %}",
+				"{% counter __testUserNextHistory999counter-- %}{% if h, ok := __testUserNextHistory999(v); !ok %}n{% endif %}"} {
+				run("hlp-ok", "__testUserNextHistory999", src, []string{"v"}, []c13Val{okVals[i]})
 			}
 		}
 		for _, h := range c13Helpers {
